@@ -165,6 +165,9 @@ def body_decl(sel: int) -> bool:
         exp = (PhotosEnum.yes if flags[-1] == "yesPhotos" else PhotosEnum.no) if flags else PhotosEnum.no
         query = "global_photos_flag"
     text = _place(stmts, pos)
+    if kind == "particle" and voff % 2:
+        # an earlier file of the session aliases the same names to other particles (and leaves the width to the reference value)
+        parse("Alias MyB0 K*0\nAlias f'_0(980) rho0\nParticle MyB0 0.892\nParticle f'_0(980) 0.77\nParticle K_S0 0.5\n").get_particle_property_definitions()
     p = parse(text)
     try:
         got = getattr(p, query)()
